@@ -1,10 +1,10 @@
 package props
 
 import (
-	"strings"
 	"encoding/json"
 	"fmt"
 	"sort"
+	"strings"
 	"time"
 
 	"github.com/go-gts/gts"
@@ -22,7 +22,7 @@ type c10Op struct {
 }
 
 type c10Case struct {
-	Prog []c10Op `json:"program,omitempty"`
+	Prog []c10Op  `json:"program,omitempty"`
 	Op   string   `json:"op"` // insert-delete | embed-delete | cut-concat
 	L    int      `json:"L"`
 	Locs []string `json:"locations"`
